@@ -19,7 +19,7 @@ func c02Plan(tier string) histPlan {
 	if tier == "thorough" {
 		return histPlan{Enum: gen.EnumParams{MaxAdds: []int{5, 4, 3}}, Rand: 60000, Tall: 150}
 	}
-	return histPlan{Enum: gen.EnumParams{MaxAdds: []int{4, 3, 2}}, Rand: 1500, Tall: 3}
+	return histPlan{Enum: gen.EnumParams{MaxAdds: []int{4, 3, 2}}, Rand: 4000, Tall: 6}
 }
 
 func init() {
